@@ -1694,7 +1694,9 @@ def slice_term(I, x, lo, hi, pos, isstr):
         if rr is not None:
             return SymStr(rr) if isstr else TermBytes(rr)
     b = T.concrete_bytes(x.t)
-    if b is not None:
+    if hc == lc:
+        r = T.lit_bytes(b'')
+    elif b is not None:
         r = T.lit_bytes(b[lc:hc])
     elif hc - lc <= 64:
         r = I.pack([I.byte_at(x.t, i) for i in range(lc, hc)]) if not (lc == 0 and False) else None
